@@ -435,6 +435,34 @@ def step1 (st : St) (op impl : String) : St × StepOut :=
       (if terminal.length == 1 then [] else ["terminal-event-count"]) ++
       (if kv iw "st" == some "6" then [] else ["not-stopped-at-end"])
     (st, { model := impl, oracle := orc.eraseDups, nontrivial := true })
+  | "xtimeout" :: _ :: opts =>
+    -- free-running, real clock: `kind=<wait|stop_and_wait|drain_and_wait> d=<µs>` |
+    -- `res=<ok|timeout|err> el=<µs> st=<u8> ev=<k> fin=<u8> term=<k>`; the target cannot finish before the
+    -- harness lets it, so the call must report the timeout, no earlier than `d` (and within a generous real-time
+    -- bound); a timed-out `wait` has no effect on the actor (still Running = 2, no terminal event); afterwards
+    -- the actor stops normally with exactly one terminal event
+    let kind := (opts.findSome? fun w => if w.startsWith "kind=" then some (w.drop 5).toString else none).getD ""
+    let d := (opts.findSome? fun w => if w.startsWith "d=" then (w.drop 2).toString.toNat? else none)
+    let el := (kv iw "el").bind (·.toNat?)
+    let orc : List String := match d, el with
+      | some d, some el =>
+        (if kv iw "res" == some "timeout" then [] else ["timeout-missed"]) ++
+        (if d ≤ el then [] else ["timeout-early"]) ++
+        (if el ≤ d + 3000000 then [] else ["timeout-late"]) ++
+        (if kind == "wait" && !(kv iw "st" == some "2" && kv iw "ev" == some "0") then ["timeout-effect"] else []) ++
+        (if kv iw "term" == some "1" then [] else ["terminal-event-count"]) ++
+        (if kv iw "fin" == some "6" then [] else ["not-stopped-at-end"])
+      | _, _ => ["unparsable"]
+    (st, { model := impl, oracle := orc, nontrivial := true })
+  | "xchildren" :: _ =>
+    -- free-running: `ret=<0|1> kids=<st,…> parent=<st>` after `stop_children_and_wait` / `drain_children_and_wait`
+    -- on running children: returned (no lost wake-up), every child Stopped (= 6) at that moment, parent Running (= 2)
+    let kids := ((kv iw "kids").getD "").splitOn ","
+    let orc : List String :=
+      (if kv iw "ret" == some "1" then [] else ["lost-wakeup"]) ++
+      (if kv iw "ret" == some "1" && !(kids.all (· == "6")) then ["premature-return"] else []) ++
+      (if kv iw "parent" == some "2" then [] else ["children-wait-effect"])
+    (st, { model := impl, oracle := orc, nontrivial := true })
   | _ => (st, { model := "bad-op" })
 
 def isWOp (op : String) : Bool :=
@@ -442,7 +470,7 @@ def isWOp (op : String) : Bool :=
 
 def step (st : St) (op impl : String) : St × StepOut :=
   let (st', out) := if isWOp op then wstep st op impl else step1 st op impl
-  if st.diverged && !(op.startsWith "case ") && !(op.startsWith "wcase ") && !(op.startsWith "xstress ") then (st', { out with model := impl })
+  if st.diverged && !(op.startsWith "case ") && !(op.startsWith "wcase ") && !(op.startsWith "xstress ") && !(op.startsWith "xtimeout ") && !(op.startsWith "xchildren ") then (st', { out with model := impl })
   else if out.model != impl then ({ st' with diverged := true }, out)
   else (st', out)
 
